@@ -524,6 +524,24 @@ func (s *sim) opConnect(skip bool) *core.Violation {
 		if v := s.oracle(cl, cr, q, calls, t0, t1, faulted, &reached); v != nil {
 			return v
 		}
+		// a successful answer to a lease- or deployment-scoped request is an answer about a lease of the
+		// authenticated account: the back end must have been asked about one in this very request (an
+		// answer produced from anything else - another tenant's earlier request, say - is not scoped)
+		if status == 200 && q.ownerScoped() && (q.route == rtLeaseStatus || q.route == rtServiceStatus || q.route == rtManifest) {
+			asked := false
+			for _, c := range calls {
+				if c.Scoped && p.whoCN != nil && c.Owner == p.whoCN.Bech {
+					asked = true
+				}
+			}
+			if !asked {
+				who := "(no account)"
+				if p.whoCN != nil {
+					who = p.whoCN.Name
+				}
+				return r.Flag("C09/answered-without-scoped-backend-call", "%s %s by %s was answered 200 without any back-end call for a lease or deployment of that account in this request (%d calls)", q.method, q.raw, who, len(calls))
+			}
+		}
 	}
 	// hang up, let the gateway finish, and look once more
 	tr.CloseIdleConnections()
